@@ -29,6 +29,9 @@ impl Visit for TypeDeclCollector<'_> {
                 .body
                 .body
                 .extend_from_slice(&ts_interface_decl.body.body);
+            interface
+                .extends
+                .extend_from_slice(&ts_interface_decl.extends);
         } else {
             self.interfaces.insert(key, ts_interface_decl.clone());
         }
